@@ -393,10 +393,14 @@ def _reader_complete(cfg, w, rep, lf, body, h, bl, ft, helper):
         for o in prog.resolve_pl(body, tu.discr.place, IDENT):
             if o.kind == "discr":
                 pl = o.info.place
-                src = prog.resolve_lifted(body, pl.local, norm_path(pl), IDENT, at=b)
-                if src and all(x.kind == "call" and x.callee is not None and (
+                # (OKFLOW: `from_str(..).ok()` decides what `from_str(..)` decides; a constant `None` / `Err(..)` built on some
+                #  path — the `return None` of a helper that was looked through — decides nothing here: the decision was taken
+                #  at the branch that led to it, and the variant-sensitive reachability follows it through this switch)
+                src = prog.resolve_lifted(body, pl.local, norm_path(pl), OKFLOW, at=b)
+                dec = [x for x in src if not (x.kind == "agg" and x.info.j.get("agg") == "adt" and x.info.j.get("variant") in ("None", "Some", "Ok", "Err"))]
+                if dec and all(x.kind == "call" and x.callee is not None and (
                         NEXT.search(x.callee.path) or x.term is ft or
-                        (helper is not None and any(x.term is hc.term for hc in helper[1]))) for x in src):
+                        (helper is not None and any(x.term is hc.term for hc in helper[1]))) for x in dec):
                     ok_switch = True
             elif o.kind == "call" and o.callee is not None and o.callee.path in ("std::cmp::PartialEq::eq", "std::cmp::PartialEq::ne"):
                 sides = [prog.resolve_op(body, a, IDENT, o.blk) for a in o.term.args]
